@@ -15,6 +15,7 @@ import (
 	"sync"
 
 	"github.com/gordian-engine/gordian/gcrypto"
+	"github.com/gordian-engine/gordian/internal/zzverif/vk"
 	"github.com/gordian-engine/gordian/tm/tmconsensus"
 	"github.com/gordian-engine/gordian/tm/tmconsensus/tmconsensustest"
 	"github.com/gordian-engine/gordian/tm/tmdriver"
@@ -634,7 +635,7 @@ func (s *hActionStore) SaveProposedHeaderAction(ctx context.Context, ph tmconsen
 	// A restart in a round that already holds a recorded vote is the known finding
 	// C02-RESIGN: such a write is not an eligible crash point.
 	ra, lerr := s.inner.LoadActions(ctx, ph.Header.Height, ph.Round)
-	eligible := lerr != nil || (ra.PrevoteSignature == "" && ra.PrecommitSignature == "")
+	eligible := lerr != nil || (ra.PrevoteSignature == "" && ra.PrecommitSignature == "") || !vk.Excluded("C02-RESIGN")
 	err := s.inner.SaveProposedHeaderAction(ctx, ph)
 	s.w.ev("save-proposal", ph.Header.Height, ph.Round, string(ph.Header.Hash), ph.Signature, err)
 	return s.w.storeWrite(ctx, "save-proposal", err, eligible)
@@ -644,14 +645,16 @@ func (s *hActionStore) SavePrevoteAction(ctx context.Context, pk gcrypto.PubKey,
 	s.peekActions()
 	err := s.inner.SavePrevoteAction(ctx, pk, vt, sig)
 	s.w.ev("save-prevote", vt.Height, vt.Round, vt.BlockHash, sig, err)
-	return err
+	// a crash point only when a restart in a round with a recorded vote is not the open finding C02-RESIGN
+	return s.w.storeWrite(ctx, "save-prevote", err, !vk.Excluded("C02-RESIGN"))
 }
 
 func (s *hActionStore) SavePrecommitAction(ctx context.Context, pk gcrypto.PubKey, vt tmconsensus.VoteTarget, sig []byte) error {
 	s.peekActions()
 	err := s.inner.SavePrecommitAction(ctx, pk, vt, sig)
 	s.w.ev("save-precommit", vt.Height, vt.Round, vt.BlockHash, sig, err)
-	return err
+	// a crash point only when a restart in a round with a recorded vote is not the open finding C02-RESIGN
+	return s.w.storeWrite(ctx, "save-precommit", err, !vk.Excluded("C02-RESIGN"))
 }
 
 func (s *hActionStore) LoadActions(ctx context.Context, h uint64, r uint32) (tmstore.RoundActions, error) {
